@@ -73,6 +73,7 @@ type stats struct {
 	headEvents          int
 	crossEpochLate      int
 	slowNode            bool
+	activationCrossed   bool
 	accountsFaults      int
 	droppedJobs         int
 	straddled           int
@@ -530,7 +531,10 @@ func (j *judge) invariants(final bool) []finding {
 	}
 	// J6: duties of the current epoch have been requested
 	ce := j.w.Epoch()
-	if len(j.c.P.Validators) > 0 && j.w.Node.Held() == 0 {
+	if j.c.ActiveFrom > 0 && ce+1 == j.c.ActiveFrom && j.startSlt/j.spe() < ce {
+		j.st.activationCrossed = true // the process lived through the tick of an epoch without active validators
+	}
+	if len(j.c.P.Validators) > 0 && j.w.Node.Held() == 0 && ce >= j.c.ActiveFrom {
 		if j.latest[fkey{"att", ce}] == nil {
 			out = append(out, finding{"attester-duties-not-requested", fmt.Sprintf("clock is in epoch %d and the process (started in slot %d) never requested its attester duties", ce, j.startSlt)})
 		}
